@@ -36,7 +36,7 @@ Print Assumptions C13_fresh_refuted.
 Local Open Scope N_scope.
 Definition A : who := [(1, 11, (0, true))].
 Definition B : who := [(2, 22, (0, false))].
-Definition P (w : who) (wr ed : bool) : proc := {| p_who := w; p_caching := true; p_write := wr; p_edit := ed |}.
+Definition P (w : who) (wr ed : bool) : proc := {| p_who := w; p_caching := true; p_write := wr; p_edit := ed; p_raises := false |}.
 Definition ex_hist : list proc := [P [] true false; P A true false; P [] true false; P A false true; P A true false; P B true false; P A true false].
 Example C13_nonvacuous : faithful (map p_who ex_hist) /\ run fs0 ex_hist = map fresh_obs ex_hist /\ length ex_hist = 7%nat.
 Proof.
